@@ -12,7 +12,7 @@ struct Args {
     cfg: Cfg,
     transcript: Option<PathBuf>,
     emit_part: Option<PathBuf>,
-    merge_part: Option<PathBuf>,
+    merge_part: Vec<PathBuf>,
     cases: Option<PathBuf>,
 }
 
@@ -37,7 +37,7 @@ fn parse() -> Args {
     };
     let mut transcript = None;
     let mut emit_part = None;
-    let mut merge_part = None;
+    let mut merge_part = vec![];
     let mut cases = None;
     let mut i = 2;
     while i < a.len() {
@@ -77,7 +77,7 @@ fn parse() -> Args {
                 i += 1;
             }
             "--merge-part" => {
-                merge_part = Some(PathBuf::from(need(i)));
+                merge_part.push(PathBuf::from(need(i)));
                 i += 1;
             }
             "--cases" => {
@@ -186,7 +186,7 @@ fn main() {
             go(&session::E2a { focus: session::Focus::Sender, suites: session::seq_suites(false), ws: if t { vec![3, 4, 5] } else { vec![3] } }, &cfg, &mut reports, &mut replayed);
             let mut starts: Vec<u64> = (0..4).map(|d| u64::MAX - d).collect();
             starts.extend_from_slice(&[0, 254, (1 << 32) - 2, (1 << 56) - 1, u64::MAX - 5]);
-            go(&session::E2b { suites: session::seq_suites(false), starts, depth: if t { 9 } else { 5 }, letters: vec![0, 1, 10], label: "sender".into() }, &cfg, &mut reports, &mut replayed);
+            go(&session::E2b { suites: session::seq_suites(false), starts, depth: if t { 9 } else { 5 }, letters: vec![0, 1, 10, 12], label: "sender".into() }, &cfg, &mut reports, &mut replayed);
         }
         "C05" => {
             let t = cfg.tier.thorough();
@@ -207,10 +207,10 @@ fn main() {
                 }
             }
             let starts: Vec<u64> = if t { session::seq_starts().into_iter().filter(|p| *p % 2 == 1 || *p > u64::MAX - 4 || *p < 3).collect() } else { vec![0, 255, (1 << 32) - 1, (1 << 56) - 1, u64::MAX - 3, u64::MAX - 2, u64::MAX - 1, u64::MAX] };
-            go(&session::E2b { suites: session::seq_suites(false), starts, depth: if t { 4 } else { 3 }, letters: (0..12).collect(), label: "full".into() }, &cfg, &mut reports, &mut replayed);
+            go(&session::E2b { suites: session::seq_suites(false), starts, depth: if t { 4 } else { 3 }, letters: (0..14).collect(), label: "full".into() }, &cfg, &mut reports, &mut replayed);
             go(&session::LongRuns { suites: session::seq_suites(false), n_fail: if t { 600_000 } else { 150_000 }, n_ok: if t { 300_000 } else { 70_000 } }, &cfg, &mut reports, &mut replayed);
             // a deeper tree from the two ends of the sequence space
-            go(&session::E2b { suites: session::seq_suites(false), starts: if t { vec![0, u64::MAX - 2, u64::MAX - 1] } else { vec![u64::MAX - 1] }, depth: if t { 5 } else { 4 }, letters: (0..12).collect(), label: "deep".into() }, &cfg, &mut reports, &mut replayed);
+            go(&session::E2b { suites: session::seq_suites(false), starts: if t { vec![0, u64::MAX - 2, u64::MAX - 1] } else { vec![u64::MAX - 1] }, depth: if t { 5 } else { 4 }, letters: (0..14).collect(), label: "deep".into() }, &cfg, &mut reports, &mut replayed);
         }
         "C06" => go(&props::c06::C06, &cfg, &mut reports, &mut replayed),
         "C07" => go(&props::c07::C07, &cfg, &mut reports, &mut replayed),
@@ -236,7 +236,9 @@ fn main() {
             go(&props::c13::C13, &cfg, &mut reports, &mut replayed);
             // many malformed deliveries to ONE context: nothing may panic or overflow however many arrive
             let t = cfg.tier.thorough();
-            go(&session::LongRuns { suites: session::seq_suites(false), n_fail: if t { 600_000 } else { 150_000 }, n_ok: 1 }, &cfg, &mut reports, &mut replayed);
+            if suites::HOOKS {
+                go(&session::LongRuns { suites: session::seq_suites(false), n_fail: if t { 600_000 } else { 150_000 }, n_ok: 1 }, &cfg, &mut reports, &mut replayed);
+            }
         }
         "C14" => go(&props::c14::C14, &cfg, &mut reports, &mut replayed),
         "C15" => go(&props::c14::C15, &cfg, &mut reports, &mut replayed),
@@ -251,7 +253,9 @@ fn main() {
                     }
                 }
             }
-            go(&session::E2a { focus: session::Focus::Export, suites, ws: vec![3] }, &cfg, &mut reports, &mut replayed);
+            if suites::HOOKS {
+                go(&session::E2a { focus: session::Focus::Export, suites, ws: vec![3] }, &cfg, &mut reports, &mut replayed);
+            }
         }
         "C16" => {
             level = "exploration";
@@ -280,7 +284,7 @@ fn main() {
         eprintln!("  emitted {} part(s) to {} ({} violating cases)", reports.len(), path.display(), bad);
         std::process::exit(0);
     }
-    if let Some(path) = &args.merge_part {
+    for path in &args.merge_part {
         let extra: Vec<PartReport> = serde_json::from_str(&std::fs::read_to_string(path).expect("cannot read part file")).expect("bad part file");
         reports.extend(extra);
     }
